@@ -176,14 +176,22 @@ func checkAllowedByAuthEvents(
 				// If we have a EventProvider then ask it for the missing event.
 				if ev, err := missingAuth(event.Version(), []string{ae}); err == nil && len(ev) > 0 {
 					// It claims to have returned events - populate the eventsByID
-					// map and the authEvents provider so that we can retry with the
-					// new events.
+					// map so that we can retry with the new events. Which of them
+					// this event is judged by is decided by the lookup above alone:
+					// an event that was not asked for must not fill a slot among the
+					// auth events of an event that does not cite it.
 					for _, e := range ev {
-						if err := authEvents.AddEvent(e); err == nil {
+						if e.StateKey() != nil {
 							eventsByID[e.EventID()] = e
 						} else {
 							eventsByID[e.EventID()] = nil
 						}
+					}
+					// The answer does not contain the requested event: that is the
+					// same as an empty answer. Without this marker we would ask
+					// again and again.
+					if _, got := eventsByID[ae]; !got {
+						eventsByID[ae] = nil
 					}
 				} else {
 					// It claims to have not returned an event - put a nil into the
